@@ -31,6 +31,9 @@ static const char *BASES[] = {"alpha.cpp", "beta.cpp", "gamma.cpp"};
 static const char CODES[] = {'F', 'E', 'W', 'N', 'I', 'I', 'D', 'T'};
 
 // same clock as LogPrintfFunc (time() may lag gettimeofday() by a tick across a second boundary)
+static long long g_base_us = 0;                    // start of the current execution
+static long long abs_us() { struct timeval tv; gettimeofday(&tv, nullptr); return (long long)tv.tv_sec * 1000000 + tv.tv_usec; }
+static long long rel_us() { return abs_us() - g_base_us; }
 static long now_sec() { struct timeval tv; gettimeofday(&tv, nullptr); return (long)tv.tv_sec; }
 static std::string head_of(const char *p, size_t n) {
     std::vector<long long> v; for (size_t i = 0; i < n && i < 12; ++i) v.push_back((unsigned char)p[i]);
@@ -38,9 +41,9 @@ static std::string head_of(const char *p, size_t n) {
 }
 static bool pad_ok(const char *p, size_t n) { for (size_t i = 9; i < n; ++i) if (p[i] != 'x') return false; return true; }
 static std::string got(int s, int th, int lvl, int lvlc, const std::string &mod, const std::string &fn, const std::string &file, int line,
-                       size_t len, bool trunc, const char *text, bool ts_ok, int fi) {
+                       size_t len, bool trunc, const char *text, bool ts_ok, int fi, long long ts) {
     return J("got") + kv("s", s) + kv("th", th) + kv("lvl", lvl) + kv("lvlc", lvlc) + ks("mod", mod) + ks("func", fn) + ks("file", file) + kv("line", line) +
-           kv("len", (long long)len) + kb("trunc", trunc) + ",\"head\":" + head_of(text, len) + kb("pad", pad_ok(text, len)) + kb("ts_ok", ts_ok) + kv("fi", fi) + "}";
+           kv("len", (long long)len) + kb("trunc", trunc) + ",\"head\":" + head_of(text, len) + kb("pad", pad_ok(text, len)) + kb("ts_ok", ts_ok) + kv("fi", fi) + kv("ts", ts) + "}";
 }
 
 static thread_local int tl_th = 0;                 // logger number of this thread
@@ -52,7 +55,8 @@ struct RecSink : tbox::log::Sink {
         long now = now_sec();
         emit(got(1, th_of(c->thread_id), c->level, CODES[c->level], c->module_id ? c->module_id : "(null)", c->func_name ? c->func_name : "(null)",
                  c->file_name ? c->file_name : "(null)", c->line, c->text_len, c->text_trunc, c->text_ptr ? c->text_ptr : "",
-                 c->timestamp.usec < 1000000 && (long)c->timestamp.sec <= now && (long)c->timestamp.sec >= now - 300, 0));
+                 c->timestamp.usec < 1000000 && (long)c->timestamp.sec <= now && (long)c->timestamp.sec >= now - 300, 0,
+                 (long long)c->timestamp.sec * 1000000 + c->timestamp.usec - g_base_us));
     }
 };
 // ---- formatted line -> Got ---------------------------------------------------------------------------------------
@@ -73,7 +77,8 @@ static void parse_line(int s, const std::string &line, int fi) {
     long ts = ts_ok ? (long)timegm(&tm) : 0, now = now_sec();      // the process runs with TZ=UTC
     ts_ok = ts_ok && ts <= now && ts >= now - 300;
     emit(got(s, th_of(atol(t[3].c_str())), -1, t[0][0], t[4], t[5].substr(0, t[5].size() - 2), c == std::string::npos ? fl : fl.substr(0, c),
-             c == std::string::npos ? -1 : atoi(fl.c_str() + c + 1), text.size(), trunc, text.c_str(), ts_ok, fi));
+             c == std::string::npos ? -1 : atoi(fl.c_str() + c + 1), text.size(), trunc, text.c_str(), ts_ok, fi,
+             ts_ok ? (long long)ts * 1000000 + atol(t[2].c_str() + 9) - g_base_us : -1));
 }
 // ---- sink 2: AsyncSink subclass with a tiny pipe ------------------------------------------------------------------
 struct RecAsync : tbox::log::AsyncSink {
@@ -118,7 +123,7 @@ static void read_back_files() {
     }
 }
 
-static void hook(const char *name, long, long b) { if (!strncmp(name, "ap.p.", 5)) S().arrive(name, "P", b); }
+static void hook(const char *name, long, long b) { if (!strncmp(name, "ap.p.", 5) || !strncmp(name, "log.", 4)) S().arrive(name, "P", b); }
 
 static std::string make_text(int th, int seq, size_t len) {
     char tag[16]; snprintf(tag, sizeof tag, "T%02d#%04d:", th, seq);
@@ -134,10 +139,10 @@ static void logger(int th, std::vector<CallSpec> calls, int seq0) {
         ++seq;
         std::string text = make_text(th, seq, c.len);
         emit(J("call") + kv("th", th) + kv("seq", seq) + kv("lvl", c.lvl) + ks("mod", MODS[c.mod]) + ks("func", FUNCS[c.fn]) + ks("file", BASES[c.file]) +
-             kv("line", c.line) + kv("len", (long long)c.len) + kb("args", c.args) + "}");
+             kv("line", c.line) + kv("len", (long long)c.len) + kb("args", c.args) + kv("t0", rel_us()) + "}");
         if (c.args) LogPrintfFunc(MODS[c.mod], FUNCS[c.fn], FILES[c.file], c.line, c.lvl, 1, "%s", text.c_str());
         else LogPrintfFunc(MODS[c.mod], FUNCS[c.fn], FILES[c.file], c.line, c.lvl, 0, text.c_str());
-        emit(J("ret") + kv("th", th) + "}");
+        emit(J("ret") + kv("th", th) + kv("t1", rel_us()) + "}");
         call_start() = now_ms();          // progress: the watchdog on the join below fires when no log call has returned for its whole interval
     }
 }
@@ -148,10 +153,10 @@ static void logger(int th, std::vector<CallSpec> calls, int seq0) {
 static void one_call(int th, int seq, const CallSpec &c) {
     std::string text = make_text(th, seq, c.len);
     emit(J("call") + kv("th", th) + kv("seq", seq) + kv("lvl", c.lvl) + ks("mod", MODS[c.mod]) + ks("func", FUNCS[c.fn]) + ks("file", BASES[c.file]) +
-         kv("line", c.line) + kv("len", (long long)c.len) + kb("args", c.args) + "}");
+         kv("line", c.line) + kv("len", (long long)c.len) + kb("args", c.args) + kv("t0", rel_us()) + "}");
     if (c.args) LogPrintfFunc(MODS[c.mod], FUNCS[c.fn], FILES[c.file], c.line, c.lvl, 1, "%s", text.c_str());
     else LogPrintfFunc(MODS[c.mod], FUNCS[c.fn], FILES[c.file], c.line, c.lvl, 0, text.c_str());
-    emit(J("ret") + kv("th", th) + "}");
+    emit(J("ret") + kv("th", th) + kv("t1", rel_us()) + "}");
 }
 static void fork_and_log(vh::Rng &rng, int &seq, size_t mx) {
     auto some_call = [&] { CallSpec c; c.lvl = (int)rng.range(0, 7); c.mod = (int)rng.below(3); c.fn = (int)rng.below(2); c.file = (int)rng.below(3);
@@ -190,7 +195,8 @@ static void fork_and_log(vh::Rng &rng, int &seq, size_t mx) {
 static void run_execution(vh::Rng &rng, uint64_t seed, int xno) {
     json sc; sc["delay_pct"] = (int)rng.pick(std::vector<int>{0, 40, 80}); sc["seed"] = seed;
     S().reset(sc);
-    S().gpoints = {"ap.p.exit", "ap.p.enter", "ap.p.chunk"};
+    S().gpoints = {"ap.p.exit", "ap.p.enter", "ap.p.chunk", "log.dispatch.enter"};     // the last one: between the time stamp and the dispatch lock
+    g_base_us = abs_us();
     g_dir = g_dir.substr(0, g_dir.rfind("/x")) + "/x" + std::to_string(xno);
     g_files_seen = 0; g_files_done.clear(); g_file_index.clear();
     if (DIR *d = opendir(g_dir.c_str())) {          // a fresh directory for every execution
